@@ -40,6 +40,8 @@ pub struct Scope {
     pub handles: u8,
     /// product scope: handles may move into heap values of the other arena
     pub lend: bool,
+    /// the arena is created with a pacing that leaves no sleep allowance at all (min_sleep 0, sleep_factor 0)
+    pub zero_sleep: bool,
     /// integer metric counters are part of the canonical state
     pub metrics_canon: bool,
     /// 'allocated during the running sweep' flags are part of the canonical state
@@ -88,6 +90,7 @@ pub const BASE: Scope = Scope {
     sets: 0,
     handles: 0,
     lend: false,
+    zero_sleep: false,
     metrics_canon: false,
     born_canon: false,
     natural: false,
@@ -150,6 +153,7 @@ pub fn scope(name: &str) -> Option<Scope> {
         "S3mw" => Scope { name: "S3mw", n: 3, r: 1, k: 1, copyroot: false, leaf: true, metrics_canon: true, ..BASE },
         "S3pw" => Scope { name: "S3pw", n: 3, r: 1, k: 1, copyroot: false, faults: true, pcallbacks: true, ..BASE },
         "S2p2" => Scope { name: "S2p2", n: 2, r: 2, k: 2, faults: true, pcallbacks: true, ..BASE },
+        "S2qz" => Scope { name: "S2qz", n: 2, r: 1, k: 1, classes: 0b111, fin: true, born_canon: true, zero_sleep: true, ..BASE },
         "S2q" => Scope { name: "S2q", n: 2, r: 1, k: 1, classes: 0b111, fin: true, born_canon: true, maproot: true, ..BASE },
         // 3 objects + finalization
         "S3f" => Scope { name: "S3f", n: 3, r: 1, k: 1, fin: true, wrap: false, ..BASE },
